@@ -26,6 +26,12 @@ BOUNDED = {
     "C12": [
         {"name": "c12_trees", "script": "c12_trees.py", "args": []},
     ],
+    "C14": [
+        {"name": "c14_accel", "script": "c14_accel.py", "args": []},
+    ],
+    "C15": [
+        {"name": "c15_rust", "script": "c15_rust.py", "args": []},
+    ],
     "C18": [
         {"name": "c18_worktree", "script": "c18_worktree.py", "args": []},
     ],
